@@ -158,10 +158,15 @@ where
     /// See [connection shutdown](https://www.rfc-editor.org/rfc/rfc9114.html#connection-shutdown) for more information.
     #[cfg_attr(feature = "tracing", instrument(skip_all, level = "trace"))]
     pub async fn shutdown(&mut self, max_requests: usize) -> Result<(), ConnectionError> {
+        //= https://www.rfc-editor.org/rfc/rfc9114#section-5.2
+        //# Requests on stream IDs less than the stream ID in a GOAWAY frame
+        //# from the server might have been processed
+        // The identifier is the first stream ID which will be rejected: `max_requests` more
+        // requests are accepted after the largest one seen so far.
         let max_id = self
             .last_accepted_stream
-            .map(|id| id + max_requests)
-            .unwrap_or(StreamId::FIRST_REQUEST);
+            .map(|id| id + max_requests + 1)
+            .unwrap_or(StreamId::FIRST_REQUEST + max_requests);
 
         self.inner.shutdown(&mut self.sent_closing, max_id).await
     }
@@ -200,7 +205,7 @@ where
                     // incoming requests not belonging to the grace interval. It's possible that
                     // some acceptable request streams arrive after rejected requests.
                     if let Some(max_id) = self.sent_closing {
-                        if s.send_id() > max_id {
+                        if s.send_id() >= max_id {
                             s.stop_sending(Code::H3_REQUEST_REJECTED.value());
                             s.reset(Code::H3_REQUEST_REJECTED.value());
                             if self.poll_requests_completion(cx).is_ready() {
@@ -209,7 +214,11 @@ where
                             continue;
                         }
                     }
-                    self.last_accepted_stream = Some(s.send_id());
+                    // Streams may be accepted out of order, keep the largest one
+                    self.last_accepted_stream = Some(
+                        self.last_accepted_stream
+                            .map_or(s.send_id(), |last| last.max(s.send_id())),
+                    );
                     self.ongoing_streams.insert(s.send_id());
                     Poll::Ready(Ok(Some(s)))
                 }
